@@ -42,6 +42,12 @@ def expressions(rnd, tier):
                 ex.append("(%s) %s (%s)" % (a, op, n)); ex.append("(%s) %s (%s)" % (n, op, a))
     for n in INTS:
         for op in ["float(%s)", "(%s) / 1", "(%s) / 3", "(%s) * 1.0", "(%s) + 0.0", "1 / (%s) if (%s) else 0", "(%s) / (2**64+1)", "(2**1100) / ((%s) + 10**300)"]: ex.append(op.replace("%s", n))
+    # int / int with quotients near and below the smallest normal double, and zero numerators
+    for _ in range(60 if tier == "quick" else 2000):
+        a = rnd.choice([1, 3, 5, 7, rnd.randrange(1, 2 ** 60), rnd.randrange(1, 2 ** 10) * 2 ** 59 + 1]); e = rnd.randint(1015, 1140)
+        b = (2 ** e) * rnd.choice([1, 3, 5, 1 + 2 * rnd.randrange(1, 2 ** 20)])
+        ex.append("(%d) / (%d)" % (rnd.choice([a, -a]), rnd.choice([b, -b])))
+    ex += ["0 / -5", "0 / 5", "-0 / 5", "0 / -(2**100)", "0.0 / -5", "(0 / -5) == 0", "str(0 / -5)", "1 / (3 * 2**1021)", "(5 * 2**59 + 1) / 2**1134", "7 / 2**1074", "1 / 2**1075", "3 / 2**1075", "2**1074 / 2**2148"]
     return ex + EXTRA
 
 def pow_value(expr, got, want):
